@@ -32,7 +32,8 @@ FullSkeleton ==
                    !.oneofs = <<[name |-> "o1"]>>,
                    !.xr = << <<1000, 2000>> >>],
                 [NewMsg("M2", 1) EXCEPT !.fields = <<F("g1", 1, 3, 9, ""), F("g2", 2, 1, KEnum, ".p.M1.M2.E2")>>],
-                [NewMsg("F6Entry", 1) EXCEPT !.mapentry = TRUE, !.fields = <<F("key", 1, 1, 9, ""), F("value", 2, 1, KMessage, ".p.M1.M2")>>]>>,
+                [NewMsg("F6Entry", 1) EXCEPT !.mapentry = TRUE, !.fields = <<F("key", 1, 1, 9, ""), F("value", 2, 1, KMessage, ".p.M1.M2")>>],
+                [NewMsg("M3", 0) EXCEPT !.fields = <<F("h1", 1, 1, 5, "")>>]>>,
      !.enums = <<NewEnum("E1", 0, <<Val("E1_A", 0), Val("E1_B", 1)>>), NewEnum("E2", 2, <<Val("E2_A", 0), Val("E2_B", 2)>>)>>,
      !.exts = <<[F("x1", 1000, 3, 5, "") EXCEPT !.extendee = ".p.M1"],
                 [F("x2", 1001, 1, KMessage, ".p.M1.M2") EXCEPT !.extendee = ".p.M1", !.parent = 2]>>]
@@ -44,10 +45,16 @@ SmallSkeleton ==
                                 [F("f7", 7, 1, 5, "") EXCEPT !.oneof = 1]>>,
                    !.oneofs = <<[name |-> "o1"]>>,
                    !.xr = << <<1000, 2000>> >>],
-                [NewMsg("M2", 1) EXCEPT !.fields = <<F("g2", 2, 1, KEnum, ".p.M1.M2.E2")>>]>>,
+                [NewMsg("M2", 1) EXCEPT !.fields = <<F("g2", 2, 1, KEnum, ".p.M1.M2.E2")>>],
+                [NewMsg("M3", 0) EXCEPT !.fields = <<F("h1", 1, 1, 5, "")>>]>>,
      !.enums = <<NewEnum("E2", 2, <<Val("E2_A", 0), Val("E2_B", 2)>>)>>,
      !.exts = <<[F("x1", 1000, 3, 5, "") EXCEPT !.extendee = ".p.M1"]>>]
 Skeleton == IF Skel = "small" THEN SmallSkeleton ELSE FullSkeleton
+\* the same skeleton with every default inverted at an outer level, so that an override *back* to the default is visible
+Inverted ==
+  [Skeleton EXCEPT !.feat = [NoFS EXCEPT !.me = "DELIMITED", !.rfe = "EXPANDED", !.utf8 = "NONE", !.jf = "LEGACY_BEST_EFFORT",
+                                         !.et = "CLOSED", !.ga = "API_OPEN", !.gl = "t"],
+                   !.msgs[Len(Skeleton.msgs)].feat = [NoFS EXCEPT !.fp = "LEGACY_REQUIRED"]]
 
 Settings ==
   {[k |-> "fp", v |-> v] : v \in {"IMPLICIT", "EXPLICIT", "LEGACY_REQUIRED"}}
@@ -80,9 +87,14 @@ SetAt(f, p, s) ==
     [] p[1] = "ext" -> [f EXCEPT !.exts[p[2]].feat[s.k] = s.v]
 
 VARIABLES file, n
-Init == file = Skeleton /\ n = 0
+ASSUME Valid(Skeleton, FALSE) /\ Valid(Inverted, FALSE)
+Init == file \in {Skeleton, Inverted} /\ n = 0
+\* from the inverted skeleton the quick tier only places settings *back* to the edition default
+BackToDefault == {[k |-> "fp", v |-> "EXPLICIT"], [k |-> "et", v |-> "OPEN"], [k |-> "rfe", v |-> "PACKED"], [k |-> "utf8", v |-> "VERIFY"],
+                  [k |-> "me", v |-> "LENGTH_PREFIXED"], [k |-> "jf", v |-> "ALLOW"], [k |-> "gl", v |-> "f"]}
+SettingsFrom(f) == IF Tier = "quick" /\ f.feat # NoFS THEN BackToDefault ELSE Settings
 Next == /\ n < MaxOverrides
-        /\ \E p \in Placements, s \in Settings :
+        /\ \E p \in Placements, s \in SettingsFrom(file) :
               /\ FeatAt(file, p)[s.k] = ""
               /\ file' = SetAt(file, p, s)
               /\ Valid(file', FALSE)
